@@ -1,5 +1,8 @@
 //! Evidence, violation records with signatures, known-findings matching, replay files, panic capture.
 use serde_json::{json, Value};
+/// println! that does not panic when stdout has been closed (e.g. piped into `head`)
+#[macro_export]
+macro_rules! outln { ($($a:tt)*) => { { use std::io::Write; let _ = writeln!(std::io::stdout(), $($a)*); } } }
 use std::collections::{BTreeMap, HashSet};
 use std::time::Instant;
 
@@ -78,17 +81,17 @@ pub fn finish(ctx: &Ctx, acc: Acc, level: &str, mut coverage: Value, assumptions
             "detail": v.detail, "replay_cmd": format!("./check {} --replay {}", ctx.id, path)});
         if ctx.replay.is_none() { let _ = std::fs::write(&path, serde_json::to_string_pretty(&rec).unwrap()); }
         if let Some(k) = listed {
-            println!("KNOWN-FINDING: property={} key={} occurrences={} {}", ctx.id, sig, v.count, k.what);
+            outln!("KNOWN-FINDING: property={} key={} occurrences={} {}", ctx.id, sig, v.count, k.what);
             known_met.push(json!({"key": sig, "occurrences": v.count, "example_case": v.case_id}));
         } else {
-            println!("VIOLATION property={} replay={}", ctx.id, path);
-            println!("  signature: {sig}\n  what: {}\n  case: {}\n  occurrences: {}", v.what, v.case_id, v.count);
+            outln!("VIOLATION property={} replay={}", ctx.id, path);
+            outln!("  signature: {sig}\n  what: {}\n  case: {}\n  occurrences: {}", v.what, v.case_id, v.count);
             unlisted += 1;
             viol_list.push(json!({"signature": sig, "what": v.what, "case": v.case_id, "occurrences": v.count, "replay": path}));
         }
     }
     if ctx.replay.is_some() {
-        println!("REPLAY property={} case={} reproduced={}", ctx.id, ctx.replay.as_ref().unwrap(), !acc.viols.is_empty());
+        outln!("REPLAY property={} case={} reproduced={}", ctx.id, ctx.replay.as_ref().unwrap(), !acc.viols.is_empty());
         return if unlisted > 0 { 1 } else { 0 };
     }
     let cov = coverage.as_object_mut().expect("coverage object");
@@ -104,7 +107,7 @@ pub fn finish(ctx: &Ctx, acc: Acc, level: &str, mut coverage: Value, assumptions
     let dir = format!("{}/evidence", ctx.root); let _ = std::fs::create_dir_all(&dir);
     std::fs::write(format!("{dir}/{}.json", ctx.id), serde_json::to_string_pretty(&ev).unwrap()).expect("write evidence");
     let c = &ev["coverage"];
-    println!("{} {} level={} evaluations={} distinct_nontrivial={} states={} transitions={} exhaustive={} unlisted_violations={} known_findings_met={} wall={:.1}s",
+    outln!("{} {} level={} evaluations={} distinct_nontrivial={} states={} transitions={} exhaustive={} unlisted_violations={} known_findings_met={} wall={:.1}s",
         ctx.id, ctx.tier.name(), level, c["evaluations"], c["distinct_nontrivial"], c["states"], c["transitions"], c["exhaustive"], unlisted, known_met.len(), ctx.t0.elapsed().as_secs_f64());
     if unlisted > 0 { 1 } else { 0 }
 }
